@@ -130,3 +130,25 @@ def fmt_facts(facts, limit=6):
         if f[0] in ("ge0", "eq0", "ne0"):
             out.append("%s %s 0" % (f[1], {"ge0": ">=", "eq0": "==", "ne0": "!="}[f[0]]))
     return "; ".join(out)
+
+
+def site_in(e, top):
+    """position (gid, idx) of effect e as seen from instance `top`: effects inside callees are attributed to the call site"""
+    inst = e.node.inst
+    gid, idx = e.gid, e.idx
+    while inst is not top and inst.parent is not None:
+        gid, idx = inst.call_gid, 1 << 20
+        inst = inst.parent
+    return gid, idx
+
+
+def before_in(I, a, b, top=None):
+    """a happens before b on every path to b (dominance over normal edges), callees collapsed to their call sites"""
+    top = top or I.g.entry
+    (ga, ia), (gb, ib) = site_in(a, top), site_in(b, top)
+    if ga == gb:
+        return ia <= ib
+    idom = getattr(I, "_idom", None)
+    if idom is None:
+        idom = I._idom = I.g.dominators()
+    return I.g.dominates(idom, ga, gb)
